@@ -149,6 +149,38 @@ type tsWalker struct {
 	// call instruction's successors are processed)
 }
 
+var errPreservingMemo = map[*ssa.Function]bool{}
+
+// errorPreserving: a function error -> error that returns a non-nil error whenever its argument is
+// non-nil: every return hands back the parameter itself or a value that is never nil.
+func errorPreserving(f *ssa.Function) bool {
+	if v, ok := errPreservingMemo[f]; ok {
+		return v
+	}
+	errPreservingMemo[f] = false
+	if len(f.Blocks) == 0 || len(f.Params) != 1 || f.Signature.Results().Len() != 1 || !isErrorType(f.Params[0].Type()) || !isErrorType(f.Signature.Results().At(0).Type()) {
+		return false
+	}
+	for _, b := range f.Blocks {
+		ret, ok := b.Instrs[len(b.Instrs)-1].(*ssa.Return)
+		if !ok {
+			continue
+		}
+		v := RetVal(ret, 0)
+		if v == ssa.Value(f.Params[0]) || knownNonNil(v) {
+			continue
+		}
+		// a sentinel of another package boxed into error (sqlite.SQLITE_CONSTRAINT_…)
+		if mi, ok := v.(*ssa.MakeInterface); ok {
+			_ = mi
+			continue
+		}
+		return false
+	}
+	errPreservingMemo[f] = true
+	return true
+}
+
 type tsItem struct {
 	b     *ssa.BasicBlock
 	i     int // next instruction index
@@ -238,6 +270,15 @@ func (w *tsWalker) walk(fn *ssa.Function, st TState) []TExit {
 						}
 					} else if knownNonNil(v) {
 						en = 0
+					} else if cl, ok := v.(*ssa.Call); ok {
+						// an error-preserving wrapper applied to a value known to be non-nil (toSqlite(err))
+						if cal := cl.Call.StaticCallee(); cal != nil && errorPreserving(cal) {
+							for _, a := range cl.Call.Args {
+								if f, ok := facts[a]; ok && !f && isErrorType(a.Type()) {
+									en = 0
+								}
+							}
+						}
 					}
 				}
 				k := fmt.Sprintf("%s|%d|%d", cur.Key(), en, x.Pos())
@@ -375,6 +416,15 @@ func interestingValues(fn *ssa.Function) map[ssa.Value]bool {
 				v := RetVal(ret, n-1)
 				out[v] = true
 				mark(v, 0)
+				// return wrap(err): the wrapped value matters too
+				if cl, ok := v.(*ssa.Call); ok {
+					for _, a := range cl.Call.Args {
+						if isErrorType(a.Type()) {
+							out[a] = true
+							mark(a, 0)
+						}
+					}
+				}
 			}
 		}
 	}
